@@ -1,5 +1,6 @@
 import Rustic.Model.Pack
 import Rustic.Model.Index
+import Rustic.Model.PackWriter
 import Driver.Util
 import Driver.C17
 /- Driver channel `c08` — see harness/src/c08.rs for the op-line grammar and the observation formats. -/
@@ -138,6 +139,118 @@ def rixObs (readAll : Bool) (packs files : String) : String :=
       let unknown := (r.flatMap fun f => (f.packs ++ f.packsToDelete).filter fun p => p.id ≥ 1000).length
       s!"ok {if per.isEmpty then "-" else ",".intercalate per} ?{unknown}"
 
+/-! ### `pw`: the pack-writer model (`Model/PackWriter.lean`) under the sequential schedule -/
+section pw
+open Rustic.PackWriter
+
+/-- `<t|d><len>` or `<t|d><len>x<count>` -/
+def parsePwAdd (s : String) : Option (BlobType × Nat × Nat) :=
+  let t? := if s.startsWith "t" then some BlobType.tree else if s.startsWith "d" then some BlobType.data else none
+  match t? with
+  | none => none
+  | some t =>
+    match ((s.drop 1).toString.splitOn "x") with
+    | [l] => l.toNat?.map fun l => (t, l, 1)
+    | [l, c] => match l.toNat?, c.toNat? with
+      | some l, some c => some (t, l, c)
+      | _, _ => none
+    | _ => none
+
+structure Sim where
+  st : St
+  /-- backend operations logged so far (pack + index writes) -/
+  ops : Nat := 0
+  /-- position of the backend operation that fails -/
+  failAt : Option Nat
+
+def pwHash (f : Bytes) : Nat := f.foldl (fun a b => (a * 31 + b.toNat) % 1000000007) f.length
+
+def Sim.step (m : Sim) (ev : Ev) : Sim := { m with st := Rustic.PackWriter.step toyEnc pwHash m.st ev }
+
+def backendOps (l : List Log) : Nat := (l.filter fun e => match e with | .indexAdd _ => false | _ => true).length
+
+/-- `process` then `index` for everything queued in lane `t` (the actor keeping up with the packer) -/
+def drain (t : BlobType) : Nat → Sim → Sim
+  | 0, m => m
+  | fuel + 1, m =>
+    let l := m.st.lane t
+    if !l.chan.isEmpty then
+      let fail := m.failAt == some m.ops
+      drain t fuel { (m.step (.write t fail)) with ops := m.ops + 1 }
+    else if !l.done.isEmpty && !l.failed then
+      -- an index write happens iff the log grows by more than the `indexAdd`
+      let before := m.st.log.length
+      let fail := m.failAt == some m.ops
+      let m' := m.step (.index t false fail)
+      let wrote := m'.st.log.length > before + 1
+      drain t fuel { m' with ops := if wrote then m.ops + 1 else m.ops }
+    else m
+
+def packStr (blobs : Option (List IndexBlob)) (len : Nat) (ok : Bool) : String :=
+  let b := match blobs with
+    | some (x :: xs) => s!"{x.id}+{xs.length + 1}"
+    | some [] => "0+0"
+    | none => "?"
+  s!"{len}/{b}/{if ok then "ok" else "f"}"
+
+def pwObs (dl tl : Nat) (failAt : Option Nat) (adds : List (BlobType × Nat × Nat)) : String :=
+  -- expand the adds: ids are the running number of the blob
+  let evs : List (BlobType × Nat × Nat) := Id.run do
+    let mut out : Array (BlobType × Nat × Nat) := #[]
+    let mut k := 0
+    for (t, len, c) in adds do
+      for _ in [0:c] do
+        out := out.push (t, len, k)
+        k := k + 1
+    return out.toList
+  let limit (t : BlobType) := match t with | .tree => tl | .data => dl
+  let m0 : Sim := { st := St.init, failAt := failAt }
+  let m1 := evs.foldl (fun (m : Sim) (t, len, id) =>
+      if (m.st.lane t).failed then m else
+      drain t 8 (m.step (.add t (List.replicate (len + 32) 0) id none (limit t) false))) m0
+  let fin (t : BlobType) (m : Sim) : Sim := if (m.st.lane t).failed then m else drain t 8 (m.step (.flush t))
+  let m2 := fin .data m1
+  let dataFailed := (m2.st.lane .data).failed
+  let m3 := if dataFailed then m2 else fin .tree m2
+  let failed := (m3.st.lane .data).failed || (m3.st.lane .tree).failed
+  let m4 := if failed then m3 else
+    let fail := m3.failAt == some m3.ops
+    m3.step (.finalizeIndexer fail)
+  let log := m4.st.log
+  let idxFailed := log.any fun e => match e with | .indexWrite _ false => true | _ => false
+  let res := if failed || idxFailed then "err" else "ok"
+  -- pack writes per lane, up to and including the first failed one; blobs of a failed write are not observable
+  -- the model's packs carry their type in the blobs; an empty pack never exists (flush only if count > 0)
+  let packs : List (BlobType × String × Bool) := log.filterMap fun e => match e with
+    | .packWrite _ file ok =>
+      -- find the blobs: the header of the model pack (toy encryption) parses back
+      match fromFile toyDec file none file.length with
+      | .ok bl =>
+        let t := match bl with | b :: _ => b.tpe | [] => BlobType.data
+        some (t, packStr (if ok then some bl else none) file.length ok, ok)
+      | .error _ => some (BlobType.data, "unparsable", ok)
+    | _ => none
+  let upto (l : List (String × Bool)) : List String :=
+    let rec go : List (String × Bool) → List String
+      | [] => []
+      | (s, ok) :: r => if ok then s :: go r else [s]
+    go l
+  let laneStr (t : BlobType) : String :=
+    let l := upto ((packs.filter fun x => x.1 == t).map fun x => (x.2.1, x.2.2))
+    if l.isEmpty then "-" else ",".intercalate l
+  let idx : List String := log.filterMap fun e => match e with
+    | .indexWrite ps ok =>
+      let names := ps.map fun p => match p.blobs with
+        | b :: r => s!"{tStr b.tpe}{b.id}+{r.length + 1}"
+        | [] => "e"
+      let sorted := (names.toArray.qsort (· < ·)).toList
+      some (if ok then s!"{"+".intercalate sorted}/ok" else "?/f")
+    | _ => none
+  let ordered := orderedFrom [] log
+  s!"res={res} D={laneStr .data} T={laneStr .tree} I={if idx.isEmpty then "-" else ",".intercalate idx} ordered={ordered}"
+
+end pw
+
 def handle : List String → String
   | ["hdr", blobs] =>
     match (if blobs = "-" then some [] else (blobs.splitOn "+").mapM Driver.C17.parseBlob) with
@@ -175,6 +288,14 @@ def handle : List String → String
     | _, _, _ => "bad-op"
   | ["rix", ra, packs, files] =>
     if ra = "0" then rixObs false packs files else if ra = "1" then rixObs true packs files else "bad-op"
+  | ["pw", dl, tl, fail, adds] =>
+    let fail? : Option (Option Nat) := if fail = "-" then some none else fail.toNat?.map some
+    let adds? := if adds = "-" then some [] else (adds.splitOn ",").mapM parsePwAdd
+    match dl.toNat?, tl.toNat?, fail?, adds? with
+    | some dl, some tl, some f, some adds => pwObs dl tl f adds
+    | _, _, _, _ => "bad-op"
+  | ["order", variant, seed] =>
+    if ["backup", "prune", "copy", "tiny", "tinyfail", "backupfail", "bigbackup"].contains variant ∧ seed.toNat?.isSome then "ok" else "bad-op"
   | ["repo", variant, seed] =>
     if ["backup", "prune-fast", "prune-copy", "prune-all", "copy", "merge"].contains variant ∧ seed.toNat?.isSome then "ok" else "bad-op"
   | ["repair", variant, seed] =>
